@@ -20,6 +20,29 @@ bin/mkoverlay -repo "$REPO_DIR" -rt "$VERIF_DIR/rt" -out "$S" > "$S/mkoverlay.lo
 go build -modfile="$S/go.mod" -overlay "$S/overlay.json" -o "$S/panmc" ./cmd/panmc > "$S/build.log" 2>&1 || { cat "$S/build.log" >&2; echo "HARNESS-ERROR: overlay build failed" >&2; exit 2; }
 (cd "$REPO_DIR" && go build -o "$S/pangaea" . ) > "$S/build2.log" 2>&1 || { cat "$S/build2.log" >&2; echo "HARNESS-ERROR: CLI build failed" >&2; exit 2; }
 export PANMC_CLI="$S/pangaea" PANMC_SCRATCH="$S" PANMC_VERIF="${PANMC_VERIF_OUT:-$VERIF_DIR}" PANMC_OVERLAY="$S/overlay.json" PANMC_REPO="$REPO_DIR"
+if [ "$MODE" = "thorough" ] && { [ "$ID" = "C02" ] || [ "$ID" = "C16" ] || [ "$ID" = "C17" ]; }; then
+  # regenerated-parser pass: the grammar source (parser.go.y) must generate the committed parser/y.go; if it
+  # does not (a grammar edit that was not regenerated, or a hand edit of y.go) the check is run a second time
+  # against a parser generated from the grammar
+  if (cd "$REPO_DIR" && go run golang.org/x/tools/cmd/goyacc -o "$S/regen_y.go" -v "$S/regen_y.output" ./parser/parser.go.y) > "$S/goyacc.log" 2>&1; then
+    if diff <(tail -n +3 "$REPO_DIR/parser/y.go") <(tail -n +3 "$S/regen_y.go") > /dev/null; then
+      export PANMC_PARSER_REGEN=identical
+    else
+      export PANMC_PARSER_REGEN=differs
+      python3 - "$S" "$REPO_DIR" <<'PYEOF'
+import json,sys
+s,repo=sys.argv[1:]
+ov=json.load(open(s+'/overlay.json'))
+ov['Replace'][repo+'/parser/y.go']=s+'/regen_y.go'
+json.dump(ov,open(s+'/overlay_regen.json','w'))
+PYEOF
+      go build -modfile="$S/go.mod" -overlay "$S/overlay_regen.json" -o "$S/panmc_regen" ./cmd/panmc > "$S/build4.log" 2>&1 || { cat "$S/build4.log" >&2; echo "HARNESS-ERROR: build with the regenerated parser failed" >&2; exit 2; }
+    fi
+  else
+    echo "note: goyacc not runnable: $(tail -2 "$S/goyacc.log")" >&2
+    export PANMC_PARSER_REGEN=unavailable
+  fi
+fi
 if [ "$ID" = "C20" ] && [ "$MODE" = "thorough" ]; then
   # free-running -race complement (not deciding): same bodies on real goroutines
   if go build -race -modfile="$S/go.mod" -overlay "$S/overlay.json" -o "$S/c20race" ./cmd/c20race > "$S/build3.log" 2>&1; then
@@ -33,4 +56,12 @@ if [ "$MODE" = "--replay" ]; then
   exit $?
 fi
 "$S/panmc" check "$ID" --tier "$MODE"
-exit $?
+rc=$?
+if [ "${PANMC_PARSER_REGEN:-}" = "differs" ] && [ $rc -ne 2 ]; then
+  echo "note: parser/y.go is not what parser/parser.go.y generates: running the check again on the regenerated parser"
+  cp "$PANMC_VERIF/evidence/$ID.json" "$S/evidence_committed_parser.json" 2>/dev/null
+  PANMC_VARIANT=regenerated-parser "$S/panmc_regen" check "$ID" --tier "$MODE"
+  rc2=$?
+  [ $rc2 -gt $rc ] && rc=$rc2
+fi
+exit $rc
